@@ -694,12 +694,49 @@ func c06Tags(c *Ctx, cs c06Case) {
 
 // predicates: "" nil; "key:K" has string or numeric label K; "num:K:lo:hi" some numeric value of K in [lo,hi];
 // "val:K:V" string label K has value V.
+// Further forms: "!P" negation (absence-style predicates such as "has no key k"), "true", "false",
+// "alllt:K:x" every numeric value of K is < x (true for a sample without K), "nkeys:n" the sample has
+// exactly n label keys (n = 0: completely unlabelled), "hash:n" an arbitrary boolean function of the
+// label sets (parity of a hash of the labels, salted with n).
 func mkPred(spec string) profile.TagMatch {
 	if spec == "" {
 		return nil
 	}
+	if strings.HasPrefix(spec, "!") {
+		inner := mkPred(spec[1:])
+		return func(s *profile.Sample) bool { return !inner(s) }
+	}
 	f := strings.Split(spec, ":")
 	switch f[0] {
+	case "true":
+		return func(*profile.Sample) bool { return true }
+	case "false":
+		return func(*profile.Sample) bool { return false }
+	case "alllt":
+		var x int64
+		fmt.Sscan(f[2], &x)
+		return func(s *profile.Sample) bool {
+			for _, v := range s.NumLabel[f[1]] {
+				if v >= x {
+					return false
+				}
+			}
+			return true
+		}
+	case "nkeys":
+		var n int
+		fmt.Sscan(f[1], &n)
+		return func(s *profile.Sample) bool { return len(s.Label)+len(s.NumLabel) == n }
+	case "hash":
+		return func(s *profile.Sample) bool {
+			var w tw
+			w.view(&profile.Sample{Label: s.Label, NumLabel: s.NumLabel})
+			h := uint32(2166136261)
+			for _, b := range []byte(w.String() + f[1]) {
+				h = (h ^ uint32(b)) * 16777619
+			}
+			return h&1 == 1
+		}
 	case "key":
 		return func(s *profile.Sample) bool {
 			_, a := s.Label[f[1]]
@@ -774,6 +811,18 @@ func c06ByTag(c *Ctx, cs c06Case) {
 	}
 	real := viewList(p)
 	oracleFailed := false
+	// documented results: "true if the corresponding expression matched at least one sample"
+	// (a nil focus counts as matching every sample, a nil ignore as matching none)
+	pin, _ := ParseCanon(cs.Profile)
+	wfm, wim := false, false
+	for _, sm := range pin.Sample {
+		wfm = wfm || fo == nil || fo(sm)
+		wim = wim || (ig != nil && ig(sm))
+	}
+	if fm != wfm || im != wim {
+		oracleFailed = true
+		c.Violation("C06/bytag/match-flags", fmt.Sprintf("FilterSamplesByTag(%q, %q) returns fm=%v im=%v; some sample matches focus: %v, ignore: %v", cs.Pred[0], cs.Pred[1], fm, im, wfm, wim), cs)
+	}
 	if spec, ok := splitViews(specS); !ok {
 		c.Disagree("C06/bytag/spec-unreadable", c06trunc(specS), "Spec tagSpec (driver)", cs)
 	} else if kind, rv, sv := diffViews(real, spec); kind != "" {
@@ -2178,7 +2227,7 @@ func runC06Case(c *Ctx, cs c06Case) {
 }
 
 func runC06(c *Ctx) {
-	c.Res.Rule = "profiles with inlined multi-line locations, shared locations, unsymbolized locations, empty stacks, mapping files and labels with units; expressions from a grammar (literal, anchored, alternation, class, substring, match-all, match-none, case-insensitive; numeric ranges a, a:, :b, a:b with signs and units, key=…); streams: name filters (all 16 on/off combinations of focus/ignore/hide/show), focus=R/ignore=R partition, show_from (main stream = inputs satisfying the hypothesis of showFrom_spec_partial, the rest on the known-finding stream), tagshow/taghide, FilterSamplesByTag with label predicates, measurement.Scale, `pprof -proto` with 1–4 of the 9 filter options (plus a unit grid for tagfocus/tagignore: range forms a, a:, :a, a:b × unit pairs same/finer/coarser/none/unknown/cross-family × label values at, just below, just above and halfway between multiples of the coarser unit), `pprof -top` with and without -relative_percentages (which total the header reports), and `pprof -top`/`-traces` through every granularity (default, functions, filefunctions, files, lines, addresses) and -noinlines with focus/ignore/hide/show expressions that match only a source file name, only a mapping name or only an inlined frame (kept samples and totals must be the rule's on the un-aggregated profile), and `pprof -proto`/-traces/-top with -tagroot/-tagleaf (one or several keys, string and numeric labels, absent keys) × every filter on profiles with sparse / huge location and function ids (the rule is evaluated on the stacks extended by the label pseudo frames; an error exit is a violation). non-trivial = some expression of the case matches at least one but not all locations in use (name/show_from/cli), some but not all label keys (tags), or the predicate selects some but not all samples (bytag); distinct by options + canonical profile"
+	c.Res.Rule = "profiles with inlined multi-line locations, shared locations, unsymbolized locations, empty stacks, mapping files and labels with units; expressions from a grammar (literal, anchored, alternation, class, substring, match-all, match-none, case-insensitive; numeric ranges a, a:, :b, a:b with signs and units, key=…); streams: name filters (all 16 on/off combinations of focus/ignore/hide/show), focus=R/ignore=R partition, show_from (main stream = inputs satisfying the hypothesis of showFrom_spec_partial, the rest on the known-finding stream), tagshow/taghide, FilterSamplesByTag called directly with arbitrary predicates on the label sets (presence, value, range, negations / absence-style, all-values-below, number of keys, constant true/false, hash parity, nil) on profiles mixing labelled and completely unlabelled samples (kept set and the fm/im results against the documented rule), measurement.Scale, `pprof -proto` with 1–4 of the 9 filter options (plus a unit grid for tagfocus/tagignore: range forms a, a:, :a, a:b × unit pairs same/finer/coarser/none/unknown/cross-family × label values at, just below, just above and halfway between multiples of the coarser unit), `pprof -top` with and without -relative_percentages (which total the header reports), and `pprof -top`/`-traces` through every granularity (default, functions, filefunctions, files, lines, addresses) and -noinlines with focus/ignore/hide/show expressions that match only a source file name, only a mapping name or only an inlined frame (kept samples and totals must be the rule's on the un-aggregated profile), and `pprof -proto`/-traces/-top with -tagroot/-tagleaf (one or several keys, string and numeric labels, absent keys) × every filter on profiles with sparse / huge location and function ids (the rule is evaluated on the stacks extended by the label pseudo frames; an error exit is a violation). non-trivial = some expression of the case matches at least one but not all locations in use (name/show_from/cli), some but not all label keys (tags), or the predicate selects some but not all samples (bytag); distinct by options + canonical profile"
 	if c.Replay != "" {
 		var cs c06Case
 		if err := c.LoadReplay(&cs); err != nil {
@@ -2197,7 +2246,7 @@ func runC06(c *Ctx) {
 		names := fnNames(p)
 		opts := map[string]string{}
 		mask := i % 16
-		if mask == 0 {
+		if mask == 0 && i%64 != 0 { // i%64 == 0: all four expressions nil (the profile must stay untouched)
 			mask = 1 + r.Intn(15)
 		}
 		for bi, k := range []string{"focus", "ignore", "hide", "show"} {
@@ -2224,6 +2273,9 @@ func runC06(c *Ctx) {
 	for i := 0; i < 500*c.Scale; i++ {
 		p := genC06Profile(r, false)
 		opts := map[string]string{"show_from": genRx(r, fnNames(p))}
+		if i%25 == 24 {
+			opts = map[string]string{} // ShowFrom(nil): no change, returns false
+		}
 		cs := c06Case{Kind: "showfrom", Stream: "main", Profile: Canon(p), Opts: opts}
 		if re, err := compileOpt(opts["show_from"]); err == nil && re != nil && !h20(p, re) {
 			cs.Stream = "known-show_from"
@@ -2242,6 +2294,9 @@ func runC06(c *Ctx) {
 		}
 		if i%3 != 0 {
 			opts["taghide"] = genRx(r, ks)
+		}
+		if i%30 == 29 {
+			opts = map[string]string{} // FilterTagsByName(nil, nil)
 		}
 		cs := c06Case{Kind: "tags", Stream: "main", Profile: Canon(p), Opts: opts}
 		nt := false
@@ -2263,10 +2318,27 @@ func runC06(c *Ctx) {
 	// ---- FilterSamplesByTag with predicates
 	for i := 0; i < 300*c.Scale; i++ {
 		p := genC06Profile(r, false)
-		mk := func() string {
-			switch r.Intn(4) {
+		var mk func() string
+		mk = func() string {
+			switch r.Intn(9) {
 			case 0:
 				return ""
+			case 4:
+				return []string{"true", "false"}[r.Intn(2)]
+			case 5: // absence-style: true on samples WITHOUT the label, in particular unlabelled ones
+				return "!key:" + []string{"k", "req", "bytes", "lat", "n", "thread"}[r.Intn(6)]
+			case 6:
+				return fmt.Sprintf("alllt:%s:%d", []string{"bytes", "lat", "n"}[r.Intn(3)], r.Intn(2500)-300)
+			case 7:
+				return fmt.Sprintf("nkeys:%d", r.Intn(3))
+			case 8:
+				if r.Bool() {
+					return fmt.Sprintf("hash:%d", r.Intn(50))
+				}
+				if in := mk(); in != "" {
+					return "!" + in
+				}
+				return "true"
 			case 1:
 				return "key:" + []string{"k", "req", "bytes", "lat", "n"}[r.Intn(5)]
 			case 2:
@@ -2285,6 +2357,17 @@ func runC06(c *Ctx) {
 			}
 		}
 		c.Res.Hit("bytag")
+		for _, sm := range p.Sample {
+			if len(sm.Label)+len(sm.NumLabel) == 0 {
+				c.Res.Hit("bytag:unlabelled-sample")
+				if fo != nil && fo(sm) {
+					c.Res.Hit("bytag:focus-true-on-unlabelled-sample")
+				}
+				if ig != nil && ig(sm) {
+					c.Res.Hit("bytag:ignore-true-on-unlabelled-sample")
+				}
+			}
+		}
 		c.Res.Count(caseKey(cs), nsel > 0 && nsel < len(p.Sample))
 		c06ByTag(c, cs)
 	}
